@@ -137,7 +137,7 @@ def do_histories(args):
     for hs in seeds:
         rng = rt.rng_for(hs, PID, "hist")
         setup, lines, meta = build_history(rng, reqs, hlen, flavour)
-        rows = rt.run_resilient(w, setup, lines, timeout=200, max_deaths=3)
+        rows = rt.run_resilient(w, setup, lines, timeout=200, stop_on_death=True)
         prev = "start"
         acc.count("histories")
         for i, (ln, mt, r) in enumerate(zip(lines, meta, rows)):
